@@ -11,4 +11,4 @@ else
   git apply "$patch"
 fi
 cd /verif && /verif/bin/govc check -prop "$prop" -no-evidence "$@" 2>&1 | grep -v '^  ' | sed 's/replay=[^ ]* //' | tail -8
-cd /repo && git checkout -q -- . && git reset -q && git status --short | grep -v '^??' | head
+cd /repo && git reset -q && git checkout -q -- . && git status --short | grep -v '^??' | head
